@@ -201,22 +201,34 @@ def _r123(ctx: Ctx) -> None:
         'other decoder': variant(('decoder', 'name'), 'D2'),
         'other decoder parameters': variant(('decoder', 'parameters', 'osd_order'), 0),
         'other error rate': variant(('error_rate',), 0.06),
+        'noise direction differing in the 9th decimal': variant(('error_model', 'parameters', 'r_x'), 0.1 + 1e-9),
+        'error rate differing in the 12th decimal': variant(('error_rate',), 0.05 + 1e-12),
+        'additional decoder parameter': variant(('decoder', 'parameters'), {'osd_order': 10, 'extra': 1}),
+        'other method': variant(('method', 'name'), 'splitting'),
     }
     for label, other in near.items():
         for with_exact in (True, False):
             data = [{'inputs': other, 'results': {'tag': 'WRONG'}}]
             if with_exact:
                 data.append({'inputs': copy.deepcopy(me), 'results': {'tag': 'RIGHT'}})
-            it = Interp(m, Hooks())
+            class HNp(Hooks):
+                def call(self, it_, func, args, kwargs, node, env):
+                    return call_numpy(func, args, kwargs)
+            it = Interp(m, HNp())
 
             def thunk():
                 o = Obj(ci, 'sim')
                 o.fields['_inputs'] = copy.deepcopy(me)
                 return it.call_closure(Closure(fn, mi, ci), [data], {}, fn, self_obj=o)
             outs = guard('R12.3', mi, fn)(lambda: it.explore(thunk))
-            ctx.need(len(outs) == 1 and outs[0].kind == 'return', 'R12.3', site_of(mi, fn), f'{outs!r}')
-            v = outs[0].value
-            ok = (v.get('results', {}).get('tag') == 'RIGHT') if with_exact else (v == {})
+            rets = [o_ for o_ in outs if o_.kind == 'return']
+            ctx.need(rets and all(isinstance(o_.value, dict) for o_ in rets), 'R12.3', site_of(mi, fn), f'{outs[:3]!r}')
+            if with_exact:
+                ok = all(o_.value.get('results', {}).get('tag') == 'RIGHT' for o_ in rets)
+            else:
+                ok = all(o_.value == {} for o_ in rets)
+            v = rets[0].value if ok else [o_.value for o_ in rets if o_.value != {} and
+                                          o_.value.get('results', {}).get('tag') != 'RIGHT'][:1] or rets[0].value
             ctx.ob('R12.3', site_of(mi, fn), f'_find_current_simulation ignores a record with {label} '
                                              f'({"exact record also present" if with_exact else "no exact record"})', ok,
                    f'returned {v!r}: results of a different (code, noise, decoder, rate) would be adopted',
@@ -425,10 +437,16 @@ def _r125(ctx: Ctx) -> None:
            f'outcome {outs!r}, {state["n"]} write attempt(s)', key='BatchSimulation.save_results|retry')
     fn2 = ci.methods.get('run')
 
+    saves = []
+
     class H2(Hooks):
         def call(self, it, func, args, kwargs, node, env):
             if isinstance(func, BoundMethod) and func.closure.fn.name == '_run':
                 raise PathRaise('KeyboardInterrupt', node)
+            if isinstance(func, BoundMethod) and func.closure.fn.name in ('save_results', '_save_results', 'save_file',
+                                                                       '_update_file'):
+                saves.append(func.closure.fn.name)
+                return None
             return NOT_HANDLED
     it = Interp(m, H2())
     outs = guard('R12.5', mi, fn2)(lambda: it.explore(
@@ -436,6 +454,19 @@ def _r125(ctx: Ctx) -> None:
     ok = len(outs) == 1 and outs[0].kind == 'return'
     ctx.ob('R12.5', site_of(mi, fn2), 'BatchSimulation.run absorbs the KeyboardInterrupt raised by _run', ok,
            f'outcome {outs!r}', key='BatchSimulation.run|interrupt')
+    ctx.ob('R12.5', site_of(mi, fn2), 'BatchSimulation.run does not write a checkpoint from its interrupt handler', not saves,
+           f'the handler of an interrupt that may have arrived in the middle of a trial (or while results were being '
+           f'loaded) calls {saves}: a torn in-memory state replaces the last completed save', key='BatchSimulation.run|no-save')
+    # who may save: only _run (between rounds) and the retry handler of save_results
+    for c in (ci, m.cls('BaseSimulation'), m.cls('DirectSimulation')):
+        for name, f_ in c.methods.items():
+            for n in ast.walk(f_):
+                if isinstance(n, ast.Call) and isinstance(n.func, ast.Attribute) and n.func.attr == 'save_results' \
+                        and ast.unparse(n.func.value) == 'self' and c is ci:
+                    okc = name == '_run'
+                    ctx.ob('R12.5', site_of(c.module, n), f'{c.name}.{name}: checkpoint only from the trial loop', okc,
+                           f'{c.name}.{name} calls save_results outside the trial loop of _run',
+                           key=f'{c.name}.{name}|save-site')
     # _save_results -> _update_file -> save_json(new_data, self._output_file); first save creates the directory
     uf = ci.methods.get('_update_file')
     calls = [n for n in ast.walk(uf) if isinstance(n, ast.Call) and ast.unparse(n.func).endswith('save_json')] if uf else []
@@ -447,7 +478,7 @@ def _r125(ctx: Ctx) -> None:
 def run(ctx: Ctx) -> None:
     ctx.rule('R12.1', 'results file only ever replaced atomically (temp sibling + os.replace)', floor=5)
     ctx.rule('R12.2', 'every save_json call passes (data, path)', floor=5)
-    ctx.rule('R12.3', 'resume identity = equality of the whole inputs; loaded lists are assigned for own keys only', floor=15)
+    ctx.rule('R12.3', 'resume identity = equality of the whole inputs; loaded lists are assigned for own keys only', floor=20)
     ctx.rule('R12.4', 'each trial guarded by n_results < n_trials with run(1); final save after the last trial', floor=1)
     ctx.rule('R12.5', 'interrupt handler saves again and re-raises; run() absorbs it', floor=3)
     ctx.trust('os.replace is atomic on one file system; json/gzip writers either complete or raise')
